@@ -119,33 +119,7 @@ func runTAB07(p *Prog, r *RuleRun) {
 			fmt.Sprintf("%d counters, %d gauges, all names distinct", len(defs["Counters"]), len(defs["Gauges"])),
 			"duplicate metric name: "+dup+" (metrics.NewAtomicCollector panics)")
 		ord := ordinal{}
-		p.eachCall([]string{rel}, func(c astCall) {
-			fn, ok := c.Callee.(*types.Func)
-			if !ok {
-				return
-			}
-			kind := ""
-			switch {
-			case sameFunc(fn, inc):
-				kind = "Counters"
-			case sameFunc(fn, set):
-				kind = "Gauges"
-			default:
-				// a concrete implementation of Collector called directly counts too
-				if (fn.Name() == "IncrementCounter" || fn.Name() == "SetGauge") && fn.Type().(*types.Signature).Recv() != nil &&
-					collector != nil && types.Implements(fn.Type().(*types.Signature).Recv().Type(), collector.Underlying().(*types.Interface)) {
-					kind = map[string]string{"IncrementCounter": "Counters", "SetGauge": "Gauges"}[fn.Name()]
-				}
-			}
-			if kind == "" || len(c.Call.Args) < 1 {
-				return
-			}
-			pos := p.Position(c.Call.Pos())
-			n, isConst := constString(c.Pkg.TypesInfo, c.Call.Args[0])
-			if !isConst {
-				r.Unknown(ord.next(c.Encl+":"+fn.Name()+"(<dynamic>)"), pos, "metric name is not a compile-time constant; cannot be checked against MetricDefinitions")
-				return
-			}
+		checkName := func(c astCall, fn *types.Func, kind, n, pos string) {
 			key := ord.next(fmt.Sprintf("%s:%s(%q)", c.Encl, fn.Name(), n))
 			declared := false
 			for _, d := range defs[kind] {
@@ -172,6 +146,131 @@ func runTAB07(p *Prog, r *RuleRun) {
 			default:
 				r.Fail(key, pos, fmt.Sprintf("%q is not declared in %s.MetricDefinitions.%s (AtomicCollector panics with \"invalid metric name\")", n, name, kind))
 			}
+		}
+		p.eachCall([]string{rel}, func(c astCall) {
+			fn, ok := c.Callee.(*types.Func)
+			if !ok {
+				return
+			}
+			kind := ""
+			switch {
+			case sameFunc(fn, inc):
+				kind = "Counters"
+			case sameFunc(fn, set):
+				kind = "Gauges"
+			default:
+				// a concrete implementation of Collector called directly counts too
+				if (fn.Name() == "IncrementCounter" || fn.Name() == "SetGauge") && fn.Type().(*types.Signature).Recv() != nil &&
+					collector != nil && types.Implements(fn.Type().(*types.Signature).Recv().Type(), collector.Underlying().(*types.Interface)) {
+					kind = map[string]string{"IncrementCounter": "Counters", "SetGauge": "Gauges"}[fn.Name()]
+				}
+			}
+			if kind == "" || len(c.Call.Args) < 1 {
+				return
+			}
+			pos := p.Position(c.Call.Pos())
+			n, isConst := constString(c.Pkg.TypesInfo, c.Call.Args[0])
+			if !isConst {
+				// a name taken from a literal table that is ranged over: every entry is checked
+				if names, ok := tableStrings(c.Pkg.TypesInfo, c.File, c.Call.Args[0]); ok && len(names) > 0 {
+					for _, tn := range names {
+						checkName(c, fn, kind, tn, pos)
+					}
+					return
+				}
+				r.Unknown(ord.next(c.Encl+":"+fn.Name()+"(<dynamic>)"), pos, "metric name is not a compile-time constant; cannot be checked against MetricDefinitions")
+				return
+			}
+			checkName(c, fn, kind, n, pos)
 		})
 	}
+}
+
+// tableStrings: the constant strings an expression can denote when it is the range variable of a loop over a
+// composite literal (`for _, c := range []struct{name string; ...}{{"a", 1}, {"b", 2}} { f(c.name) }`, or a
+// plain []string literal).
+func tableStrings(info *types.Info, file *ast.File, e ast.Expr) ([]string, bool) {
+	var id *ast.Ident
+	fieldName := ""
+	switch x := ast.Unparen(e).(type) {
+	case *ast.Ident:
+		id = x
+	case *ast.SelectorExpr:
+		if b, ok := x.X.(*ast.Ident); ok {
+			id, fieldName = b, x.Sel.Name
+		}
+	}
+	if id == nil {
+		return nil, false
+	}
+	obj := info.Uses[id]
+	if obj == nil {
+		return nil, false
+	}
+	var out []string
+	found, allConst := false, true
+	ast.Inspect(file, func(n ast.Node) bool {
+		rs, ok := n.(*ast.RangeStmt)
+		if !ok || rs.Value == nil {
+			return true
+		}
+		vid, ok := rs.Value.(*ast.Ident)
+		if !ok || info.Defs[vid] != obj {
+			return true
+		}
+		lit, ok := ast.Unparen(rs.X).(*ast.CompositeLit)
+		if !ok {
+			return true
+		}
+		found = true
+		for _, el := range lit.Elts {
+			if kv, ok := el.(*ast.KeyValueExpr); ok {
+				el = kv.Value
+			}
+			if fieldName == "" {
+				if s, ok := constString(info, el); ok {
+					out = append(out, s)
+				} else {
+					allConst = false
+				}
+				continue
+			}
+			cl, ok := el.(*ast.CompositeLit)
+			if !ok {
+				allConst = false
+				continue
+			}
+			idx := -1
+			if tv, ok := info.Types[cl]; ok {
+				if st, ok := tv.Type.Underlying().(*types.Struct); ok {
+					for i := 0; i < st.NumFields(); i++ {
+						if st.Field(i).Name() == fieldName {
+							idx = i
+						}
+					}
+				}
+			}
+			got := false
+			for i, fe := range cl.Elts {
+				if kv, ok := fe.(*ast.KeyValueExpr); ok {
+					if k, ok := kv.Key.(*ast.Ident); ok && k.Name == fieldName {
+						if s, ok := constString(info, kv.Value); ok {
+							out = append(out, s)
+							got = true
+						}
+					}
+				} else if i == idx {
+					if s, ok := constString(info, fe); ok {
+						out = append(out, s)
+						got = true
+					}
+				}
+			}
+			if !got {
+				allConst = false
+			}
+		}
+		return true
+	})
+	return out, found && allConst
 }
